@@ -92,7 +92,9 @@ def run_case(case):
         variants.append((name, X2, y2, vals, ids, False))
     # affine maps / renamings
     if case["kind"] == "QNT":
-        for a, b in AFFINE:
+        # shifts that put a cut point exactly on 0.0 (a falsy boundary)
+        zero_shifts = [(1.0, -float(v)) for v in sorted(set(vals))[:2]]
+        for a, b in AFFINE + zero_shifts:
             X2 = X.copy()
             X2["f"] = X2["f"] * a + b
             back = (X2["f"] - b) / a
@@ -206,6 +208,13 @@ def enumerate_cases(tier, seed):
                     ):
                         # names of set 0 (m0..) so that renamings apply; quantitative scale from the seed
                         cases.append({"carver": carver, "kind": kind, "cells": [list(c) for c in cells], "nan": list(nan) if nan else None, "dev": None, "cfg": cfg, "seed": 0 if kind != "QNT" else seed, "tier": tier})
+    # quantitative features with a sparse segment of single-row values between over-represented values (the quantile
+    # search falls back to 'one bucket for the remaining values' there)
+    big, t0, t1 = (4, 4), (1, 0), (0, 1)
+    sparse = [[big, t0, t1, big], [big, t1, t0, big], [big, t0, t1], [t0, t1, big], [big, t0, t1, t0, big], [(6, 2), t1, t1, (2, 6)], [big, t0, t0, t1, (6, 2)]]
+    for cells in sparse:
+        for nan in (None, (2, 2)):
+            cases.append({"carver": "binary", "kind": "QNT", "cells": [list(c) for c in cells], "nan": list(nan) if nan else None, "dev": None, "cfg": {"sort_by": "tschuprowt", "max_n_mod": 4, "min_freq": 0.1, "min_freq_mod": None, "output_dtype": "float", "dropna": True}, "seed": seed, "tier": tier})
     if tier != "quick":
         # tiny frames (N <= 6): all row permutations
         for cells in [[(1, 1), (1, 1), (0, 1)], [(1, 0), (0, 1), (1, 1)], [(2, 0), (1, 1), (0, 2)], [(1, 1), (2, 1)], [(1, 0), (1, 1), (0, 1), (1, 0)]]:
